@@ -237,7 +237,8 @@ def p_C06(ctx):
     nh, steps = (150, 50) if ctx.quick else (2000, 100)
     ctx.drive_and_validate("drive-hist", ["hist", ctx.seed + 11, nh, steps, 6, "{out}", "elem"], "TooDeeTrace", attr_hist_event,
                            profile="dev", invariants=("ShapeOK", "HandleOK"))
-    ctx.drive_and_validate("drive-hist", ["hist", ctx.seed + 12, nh, steps, 8, "{out}", "elem"], "TooDeeTrace", attr_hist_event,
+    # (u32: two of these histories start from about 10^6 cells - exact capacity, then insert_row / insert_col in the middle)
+    ctx.drive_and_validate("drive-hist-u32", ["hist", ctx.seed + 12, nh, steps, 8, "{out}", "u32"], "TooDeeTrace", attr_hist_event,
                            profile="release", invariants=("ShapeOK", "HandleOK"))
 
 
